@@ -654,9 +654,32 @@ def sc_c19_drain(name, seed, mtu):
     return Scenario(name, s.lines)
 
 
+def sc_c19_nomapper(name, seed, mtu):
+    """state that exists while no mapper is bound (observations recorded before any session, or kept
+    across a quick-discovery Reset; a cached icon) must be released by the topology Reset as well"""
+    rng = random.Random(seed)
+    s = new_script(mtu=mtu)
+    s.rx(1, reset(M1))
+    for i in range(rng.randrange(3, 40)):
+        src = bytes([2, 0x51, 0, (seed >> 5) & 0xFF, 0, i])
+        s.rx(1, probe(src, OWN, src, OWN, train=i & 1))
+    s.rx(1, reset(M2))
+    s.rx(1, discover(0, M1, gen=2, seq=1))
+    s.rx(1, query_large(M1, OWN, 0x0E, 0, seq=2))
+    for i in range(rng.randrange(3, 20)):
+        src = bytes([2, 0x52, 0, (seed >> 5) & 0xFF, 0, i])
+        s.rx(1, probe(src, OWN, src, OWN))
+    s.rx(1, reset(M1, tos=1))
+    s.rx(1, reset(M1))
+    s.rx(1, reset(M1))
+    return Scenario(name, s.lines)
+
+
 def campaign_c19(seed, tier):
     rng = random.Random(seed)
     scs = []
+    for i in range(4 if tier == "quick" else 60):
+        scs.append(sc_c19_nomapper("c19-nomapper-%d" % i, rng.randrange(1 << 30), rng.choice(MTUS)))
     for mtu in [576, 590, 1500] + ([9216] + [rng.randrange(576, 3000) for _ in range(20)] if tier == "thorough" else []):
         scs.append(sc_c19_drain("c19-drain-%d" % mtu, rng.randrange(1 << 30), mtu))
     n = 10000 if tier == "quick" else 100000
